@@ -90,6 +90,148 @@ def has_call(relfile, fn, name):
     return any(nm == name for nm, _ in calls(f))
 
 
+# ---- the pool's tear-down (finding server-destroyed-while-io-loop-draining) -------------------------------------------
+def loop_shape():
+    """EventLoop::loop(): (a doPendingFunctors() call after the while loop?, is doPendingFunctors() the last statement of
+    the while body - so that `while (!quit_)` is evaluated right after a drain?)"""
+    rel = "muduo/net/EventLoop.cc"
+    f = cxxast.function_decl(rel, "EventLoop::loop")
+    stmts = kids(cxxast.body(f))
+    wh = [i for i, st in enumerate(stmts) if st.get("kind") == "WhileStmt"]
+    if len(wh) != 1:
+        raise cxxast.Untranslatable("EventLoop::loop: %d while loops" % len(wh))
+    w = stmts[wh[0]]
+    if "quit_" not in cxxast.src_text(kids(w)[0], rel):
+        raise cxxast.Untranslatable("EventLoop::loop: the while condition does not read quit_")
+    after = any(nm == "doPendingFunctors" for st in stmts[wh[0] + 1:] for nm, _ in calls(st))
+    wbody = kids(w)[-1]
+    last = kids(wbody)[-1] if wbody.get("kind") == "CompoundStmt" and kids(wbody) else wbody
+    last_is_drain = [nm for nm, _ in calls(last)] == ["doPendingFunctors"]
+    return after, last_is_drain
+
+
+def dtor_quit_then_join():
+    """~EventLoopThread: loop_->quit() and then thread_.join()"""
+    rel = "muduo/net/EventLoopThread.cc"
+    f = cxxast.function_decl(rel, "EventLoopThread::~EventLoopThread")
+    q = [m for nm, m in calls(f) if nm == "quit"]
+    j = [m for nm, m in calls(f) if nm == "join"]
+    if len(q) != 1 or len(j) != 1:
+        raise cxxast.Untranslatable("~EventLoopThread: %d quit(), %d join()" % (len(q), len(j)))
+    return off(q[0]) < off(j[0])
+
+
+def server_dtor_waits():
+    """does ~TcpServer's body wait for its hand-offs (a loop other than the range-for over connections_, a join/wait/stop/quit)?"""
+    rel = "muduo/net/TcpServer.cc"
+    f = cxxast.function_decl(rel, "TcpServer::~TcpServer")
+    if any(m.get("kind") in ("WhileStmt", "DoStmt") for m in cxxast.walk(f)):
+        return True
+    if len([m for m in cxxast.walk(f) if m.get("kind") in ("ForStmt", "CXXForRangeStmt")]) != 1:
+        return True
+    return any(nm in ("join", "wait", "stop", "quit", "doPendingFunctors") for nm, _ in calls(f))
+
+
+def field_of(relhdr, cls, field):
+    """type of a data member, from the class definition in a header"""
+    for d in cxxast.dump(relhdr, cls):
+        for n in cxxast.walk(d):
+            if n.get("kind") == "CXXRecordDecl" and n.get("name") == cls.split("::")[-1] and n.get("completeDefinition"):
+                for c in kids(n):
+                    if c.get("kind") == "FieldDecl" and c.get("name") == field:
+                        return c.get("type", {}).get("qualType", "")
+    raise cxxast.Untranslatable("no field %s in %s" % (field, cls))
+
+
+# ---- affinity: the loop a connection's channel is registered with is the loop its callbacks are handed to ------------------
+def refs(node):
+    return [(n.get("referencedDecl") or {}).get("name") for n in cxxast.walk(node) if n.get("kind") == "DeclRefExpr"]
+
+
+def member_call_object(call):
+    """name of the variable / member a member call is made on: x->f(...), x.f(...), x_->f(...)"""
+    me = cxxast.strip(kids(call)[0])
+    if me.get("kind") != "MemberExpr":
+        return None
+    base = cxxast.strip(kids(me)[0])
+    while base.get("kind") in ("CXXOperatorCallExpr",):        # smart pointer ->
+        base = cxxast.strip(kids(base)[-1])
+    if base.get("kind") == "DeclRefExpr":
+        return (base.get("referencedDecl") or {}).get("name")
+    if base.get("kind") == "MemberExpr":
+        return base.get("name")
+    return None
+
+
+def server_conn_on_next_loop():
+    """TcpServer::newConnection: ioLoop = threadPool_->getNextLoop(); the connection is constructed with ioLoop and
+    connectEstablished is handed to ioLoop"""
+    rel = "muduo/net/TcpServer.cc"
+    f = cxxast.function_decl(rel, "TcpServer::newConnection")
+    var = None
+    for n in cxxast.walk(f):
+        if n.get("kind") == "VarDecl" and any(nm == "getNextLoop" for nm, _ in calls(n)):
+            var = n.get("name")
+    if var is None:
+        raise cxxast.Untranslatable("newConnection: no variable initialised from getNextLoop()")
+    news = [n for n in cxxast.walk(f) if n.get("kind") == "CXXNewExpr" and "TcpConnection" in n.get("type", {}).get("qualType", "")]
+    if len(news) != 1:
+        raise cxxast.Untranslatable("newConnection: %d new TcpConnection" % len(news))
+    ctor = [n for n in cxxast.walk(news[0]) if n.get("kind") == "CXXConstructExpr"][0]
+    first = kids(ctor)[0]
+    hand = [m for nm, m in calls(f) if nm in ("runInLoop", "queueInLoop") and "connectEstablished" in cxxast.src_text(m, rel)]
+    if len(hand) != 1:
+        raise cxxast.Untranslatable("newConnection: %d hand-overs of connectEstablished" % len(hand))
+    return refs(first) == [var] and member_call_object(hand[0]) == var
+
+
+def conn_channel_on_conn_loop():
+    """TcpConnection::TcpConnection(EventLoop* loop, ...): loop_(... loop ...), channel_(new Channel(loop, sockfd))"""
+    rel = "muduo/net/TcpConnection.cc"
+    f = cxxast.function_decl(rel, "TcpConnection::TcpConnection")
+    parm = [c.get("name") for c in kids(f) if c.get("kind") == "ParmVarDecl"][0]
+    inits = {(c.get("anyInit") or {}).get("name"): c for c in kids(f) if c.get("kind") == "CXXCtorInitializer"}
+    if "loop_" not in inits or "channel_" not in inits:
+        raise cxxast.Untranslatable("TcpConnection ctor: no initialiser for loop_ / channel_")
+    chan = [n for n in cxxast.walk(inits["channel_"]) if n.get("kind") == "CXXConstructExpr" and n.get("type", {}).get("qualType", "").endswith("Channel")]
+    if len(chan) != 1:
+        raise cxxast.Untranslatable("TcpConnection ctor: %d Channel constructions" % len(chan))
+    return parm in refs(inits["loop_"]) and refs(kids(chan[0])[0]) == [parm]
+
+
+def channel_registers_with_its_loop():
+    """Channel::Channel(loop, fd): loop_(loop); Channel::update(): loop_->updateChannel(this); Channel::remove(): loop_->removeChannel(this);
+    EventLoop::updateChannel: assertInLoopThread(); poller_->updateChannel(channel)"""
+    rel = "muduo/net/Channel.cc"
+    f = cxxast.function_decl(rel, "Channel::Channel")
+    parm = [c.get("name") for c in kids(f) if c.get("kind") == "ParmVarDecl"][0]
+    inits = {(c.get("anyInit") or {}).get("name"): c for c in kids(f) if c.get("kind") == "CXXCtorInitializer"}
+    ok = "loop_" in inits and refs(inits["loop_"]) == [parm]
+    for fn, callee in (("Channel::update", "updateChannel"), ("Channel::remove", "removeChannel")):
+        g = cxxast.function_decl(rel, fn)
+        cs = [m for nm, m in calls(g) if nm == callee]
+        ok = ok and len(cs) == 1 and member_call_object(cs[0]) == "loop_"
+    e = "muduo/net/EventLoop.cc"
+    g = cxxast.function_decl(e, "EventLoop::updateChannel")
+    cs = [m for nm, m in calls(g) if nm == "updateChannel"]
+    ok = ok and len(cs) == 1 and member_call_object(cs[0]) == "poller_" and any(nm == "assertInLoopThread" for nm, _ in calls(g))
+    return ok
+
+
+def loop_dispatches_own_poller():
+    """EventLoop::loop(): assertInLoopThread(); the channels whose handleEvent it calls are the ones poller_->poll filled in"""
+    rel = "muduo/net/EventLoop.cc"
+    f = cxxast.function_decl(rel, "EventLoop::loop")
+    polls = [m for nm, m in calls(f) if nm == "poll"]
+    hs = [m for nm, m in calls(f) if nm == "handleEvent"]
+    if len(polls) != 1 or len(hs) != 1:
+        raise cxxast.Untranslatable("EventLoop::loop: %d poll(), %d handleEvent()" % (len(polls), len(hs)))
+    fors = [n for n in cxxast.walk(f) if n.get("kind") == "CXXForRangeStmt" and any(m is hs[0] or m.get("id") == hs[0].get("id") for m in cxxast.walk(n))]
+    return (member_call_object(polls[0]) == "poller_" and "activeChannels_" in cxxast.src_text(polls[0], rel)
+            and len(fors) == 1 and "activeChannels_" in cxxast.src_text(fors[0], rel).split(")")[0]
+            and any(nm == "assertInLoopThread" for nm, _ in calls(f)))
+
+
 def main():
     out = ["(* GENERATED by lib/gen_C02.py from the current sources -- do not edit *)", "From Coq Require Import Bool.", ""]
 
@@ -127,6 +269,27 @@ def main():
          "~Socket closes the descriptor")
     fact("channel_event_locks_tie", lambda: has_call("muduo/net/Channel.cc", "Channel::handleEvent", "lock"),
          "Channel::handleEvent locks the tie before dispatching")
+    E = "muduo/net/EventLoop.cc"
+    fact("loop_drains_after_while", lambda: loop_shape()[0],
+         "EventLoop::loop() calls doPendingFunctors() once more after its while (!quit_) loop")
+    fact("loop_drain_ends_iteration", lambda: loop_shape()[1],
+         "doPendingFunctors() is the last statement of the while body of EventLoop::loop(): `while (!quit_)` is evaluated right after a drain")
+    fact("loopthread_dtor_quits_then_joins", dtor_quit_then_join,
+         "~EventLoopThread calls loop_->quit() and then thread_.join()")
+    fact("server_dtor_waits_for_handoffs", server_dtor_waits,
+         "~TcpServer's body waits for the connectDestroyed hand-offs before its members (threadPool_) die")
+    fact("server_owns_pool", lambda: "EventLoopThreadPool" in field_of("muduo/net/TcpServer.h", "muduo::net::TcpServer", "threadPool_")
+         and "EventLoopThread" in field_of("muduo/net/EventLoopThreadPool.h", "muduo::net::EventLoopThreadPool", "threads_")
+         and "Functor" in field_of("muduo/net/EventLoop.h", "muduo::net::EventLoop", "pendingFunctors_"),
+         "TcpServer::threadPool_ holds the EventLoopThreadPool, whose threads_ hold the EventLoopThreads; pendingFunctors_ is a member of EventLoop (it dies with the loop)")
+    fact("server_conn_on_next_loop", server_conn_on_next_loop,
+         "TcpServer::newConnection: ioLoop = threadPool_->getNextLoop(); new TcpConnection(ioLoop, ...); ioLoop->runInLoop(connectEstablished)")
+    fact("conn_channel_on_conn_loop", conn_channel_on_conn_loop,
+         "TcpConnection::TcpConnection(loop, ...): loop_(loop), channel_(new Channel(loop, sockfd))")
+    fact("channel_registers_with_its_loop", channel_registers_with_its_loop,
+         "Channel: loop_(loop); update()/remove() go to loop_->updateChannel/removeChannel(this); EventLoop::updateChannel: assertInLoopThread(); poller_->updateChannel")
+    fact("loop_dispatches_own_poller", loop_dispatches_own_poller,
+         "EventLoop::loop(): handleEvent is called on the channels poller_->poll() put into activeChannels_, on the loop's own thread")
     txt = "\n".join(out) + "\n"
     path = os.path.join(ROOT, "coq", "Gen_C02.v")
     old = open(path).read() if os.path.exists(path) else None
